@@ -75,12 +75,12 @@ def c02(tier):
                       "with_ frame + read-back + set_ compared on every transition; " +
                       ("wide BWq: A(N) x AV(w)" if tier == 'quick' else "N 17..24: cross (all states x AV, A x all values); N>24: A(N) x AV(w)"))
     if tier == 'thorough':
-        sweep_check(chk, "u32full", sets.u32_full_set(), 'put', 'fast', full_n=32, kinds='bun')
-        chk.bounds.append("u32 base: all 2^32 raw values x core values {0, ones, 0xAA.., 0x55..} for the boundary families")
-    # the statement covers every writable field: array and multi-range shapes too (shared builds with C03/C04)
-    sweep_check(chk, f"arr-{tier}", sets.arr_set(tier), 'put', prof, full_w=fw)
-    sweep_check(chk, f"nc-{tier}", sets.nc_set(tier), 'put', prof, full_w=fw)
-    chk.bounds.append("plus the ARR/ARRB/ARRBOOL and NC/NCARR/NCB families of C03/C04 (with_/set_ only)")
+        sweep_check(chk, "u32put", sets.u32_put_set(), 'put', 'fast', full_n=32)
+        chk.bounds.append("u32 base: all 2^32 raw values x v in {0, all-ones} x {with_, set_} for 18 boundary fields (bool/u1 at 0,15,31; u3,u5; u8/i8 at 0,12,23,24; u15..u17; u31; full-width u32; byte-swap and top-bit lists)")
+    # the statement covers every writable field: array and multi-range shapes too (shared builds with C03/C04; the quick sets in both tiers)
+    sweep_check(chk, "arr-quick", sets.arr_set('quick'), 'put', prof, full_w=8)
+    sweep_check(chk, "nc-quick", sets.nc_set('quick'), 'put', prof, full_w=8)
+    chk.bounds.append("plus the quick ARR/ARRB/ARRBOOL and NC/NCARR/NCB families of C03/C04 (with_/set_ only)")
     return chk.finish()
 
 
@@ -196,16 +196,17 @@ def c16(tier):
     fw = 8
     t = tier
     plan = [
-        (f"contig-{t}", sets.contig_set, dict(ops='all', oob=False)),
-        (f"arr-{t}", sets.arr_set, dict(ops='all', oob=True)),
-        (f"nc-{t}", sets.nc_set, dict(ops='all', oob=True)),
-        (f"signed-{t}", sets.signed_set, dict(ops='all', oob=False)),
-        (f"custom-{t}", sets.custom_set, dict(ops='all', oob=True)),
+        (f"contig-{t}", sets.contig_set, t, dict(ops='all', oob=False)),
+        (f"arr-{t}", sets.arr_set, t, dict(ops='all', oob=True)),
+        # the thorough non-contiguous set (5e12 transitions in the fast profile) is too large for the checked profile: both tiers use the quick one
+        ("nc-quick", sets.nc_set, 'quick', dict(ops='all', oob=True)),
+        (f"signed-{t}", sets.signed_set, t, dict(ops='all', oob=False)),
+        (f"custom-{t}", sets.custom_set, t, dict(ops='all', oob=True)),
     ]
-    for wsname, mk, kw in plan:
+    for wsname, mk, mt, kw in plan:
         reps = {}
         for prof in ('checked', 'fast'):
-            rep = sweep_check(chk, wsname, mk(t), kw['ops'], prof, full_w=fw, full_n=16, oob=kw['oob'], label=f"{wsname}:{prof}")
+            rep = sweep_check(chk, wsname, mk(mt), kw['ops'], prof, full_w=fw, full_n=16, oob=kw['oob'], label=f"{wsname}:{prof}")
             if rep is None:
                 break
             reps[prof] = rep
